@@ -173,3 +173,68 @@ Qed.
 (* an optional token that is absent: decided on the first character *)
 Lemma mtok_absent a t l ln ac : a <> hd 0 l -> a <> 0 -> mtok (a :: t) false (mkR (amk l ln) ac) = ROk false (mkR (amk l ln) ac).
 Proof. intros H H0. unfold mtok, bind, on_str. cbn [str acc]. rewrite a_match_tok_no_hd0 by assumption. reflexivity. Qed.
+
+(* ---------- more combinators ---------- *)
+Lemma reads_bind0 {A B} (m : M A) (k : A -> M B) t v1 v2 e1 e2 (ok1 ok2 : list Z -> Prop) :
+  reads m [] v1 e1 ok1 -> reads (k v1) t v2 e2 ok2 -> (forall tail, ok2 tail -> ok1 (t ++ tail)) ->
+  reads (bind m k) t v2 (e2 ++ e1) ok2.
+Proof. intros H1 H2 Hok. apply (reads_bind m k [] t v1 v2 e1 e2 ok1 ok2 H1 H2 Hok). Qed.
+
+Lemma reads_eff {A} (m : M A) t v e e' ok : reads m t v e ok -> e = e' -> reads m t v e' ok.
+Proof. intros H <-. exact H. Qed.
+
+Lemma reads_bind_peek {B} (k : Z -> M B) (P : Z -> Prop) t v e (ok : list Z -> Prop) :
+  (forall c, P c -> reads (k c) t v e ok) ->
+  (forall tail, ok tail -> P (hd 0 (t ++ tail)) /\ nws (t ++ tail)) ->
+  reads (bind (peek true) k) t v e ok.
+Proof.
+  intros Hk Hp tail ln ac Ht. destruct (Hp tail Ht) as [HP Hn]. unfold bind. rewrite peek_true_nws by exact Hn.
+  apply (Hk _ HP tail ln ac Ht).
+Qed.
+Lemma reads_bind_peek_raw {B} (k : Z -> M B) (P : Z -> Prop) t v e (ok : list Z -> Prop) :
+  (forall c, P c -> reads (k c) t v e ok) ->
+  (forall tail, ok tail -> P (hd 0 (t ++ tail))) ->
+  reads (bind (peek false) k) t v e ok.
+Proof.
+  intros Hk Hp tail ln ac Ht. unfold bind. rewrite peek_false. apply (Hk _ (Hp tail Ht) tail ln ac Ht).
+Qed.
+
+Lemma reads_tok_absent a t : a <> 0 -> reads (mtok (a :: t) false) [] false [] (fun tail => a <> hd 0 tail).
+Proof. intros H0 tail ln ac Ht. cbn [app]. rewrite mtok_absent by assumption. eexists. reflexivity. Qed.
+
+Fixpoint mism (p l : list Z) : bool :=
+  match p, l with a :: p', b :: l' => if a =? b then mism p' l' else true | _, _ => false end.
+Lemma list_eqb_mism p : forall c l, mism p c = true -> list_eqb (firstn (length p) (c ++ l)) p = false.
+Proof.
+  induction p as [|a p IH]; intros c l H; [discriminate|]. destruct c as [|b c]; [discriminate|].
+  cbn [mism] in H. cbn [length app firstn list_eqb]. destruct (Z.eqb_spec a b) as [->|Hne].
+  - rewrite Z.eqb_refl. cbn [andb]. now apply IH.
+  - destruct (Z.eqb_spec b a); [congruence | reflexivity].
+Qed.
+Lemma reads_tok_mism s kw : mism s kw = true -> reads (mtok s false) [] false [] (fun tail => exists l, tail = kw ++ l).
+Proof.
+  intros H tail ln ac (l & ->). cbn [app]. unfold mtok, bind, on_str. cbn [str acc].
+  unfold a_match_tok. cbn [rest aline]. rewrite (list_eqb_mism s kw l H). eexists. reflexivity.
+Qed.
+
+(* keyword tables *)
+Fixpoint kw_first (tab : list (Z * list Z)) (name : list Z) (v : Z) : bool :=
+  match tab with
+  | [] => false
+  | (v0, s) :: r => if list_eqb s name then (v0 =? v) && negb (match s with [] => true | _ => false end) else mism s name && kw_first r name v
+  end.
+Lemma r_kw tab : forall name v w, kw_first tab name v = true -> wsl w -> reads (m_kw tab) (name ++ w) (Some v) [] nws.
+Proof.
+  induction tab as [|[v0 s] tab IH]; intros name v w H Hw; [discriminate|]. cbn [kw_first] in H. cbn [m_kw].
+  destruct (list_eqb s name) eqn:E.
+  - apply list_eqb_eq in E. subst s. apply andb_true_iff in H. destruct H as [Hv _]. apply Z.eqb_eq in Hv. subst v0.
+    eapply reads_eff; [eapply reads_eq; [eapply (reads_bind _ _ (name ++ w) [] true); [apply reads_tok; exact Hw | apply reads_ret | intros tail Ht; rewrite app_nil_l; exact Ht] | now rewrite app_nil_r] | reflexivity].
+  - apply andb_true_iff in H. destruct H as [Hm Hk].
+    eapply reads_eff; [eapply (reads_bind0 _ _ (name ++ w) false); [apply (reads_tok_mism s name Hm) | apply IH; eassumption | intros tail _; rewrite <- app_assoc; eexists; reflexivity] | reflexivity].
+Qed.
+Lemma r_kw_none tab : forall name, forallb (fun e => mism (snd e) name) tab = true ->
+  reads (m_kw tab) [] None [] (fun tail => exists l, tail = name ++ l).
+Proof.
+  induction tab as [|[v0 s] tab IH]; intros name H; [apply reads_ret|]. cbn [forallb snd] in H. apply andb_true_iff in H. destruct H as [Hm Hk].
+  cbn [m_kw]. eapply reads_eff; [eapply (reads_bind0 _ _ [] false); [apply (reads_tok_mism s name Hm) | apply IH; exact Hk | intros tail Ht; exact Ht] | reflexivity].
+Qed.
